@@ -63,6 +63,18 @@ package channel
 //@   ensures[C12:decimal-length] result1 == nil || isCTMismatch(result1) ==> decimalOf(contentLength, len(result0)) && contentLength != ""
 //@   loop 1 invariant rdPos(h.rd) >= old(rdPos(h.rd)) && rdPos(h.rd) <= rdLen(h.rd)
 //@   loop 1 decreases rdLen(h.rd) - rdPos(h.rd)
+// Which header line sets which field: within one iteration contentLength /
+// contentType change only if the line's field name, lower-cased, is exactly
+// "content-length" / "content-type" (case-insensitive match, every other field
+// ignored). lastName, prevLen, prevType are ghosts set where the name is folded.
+//@   ghostvar lastName Str
+//@   ghostvar prevLen Str
+//@   ghostvar prevType Str
+//@   at call.ToLower#1 ghostset lastName = arg0
+//@   at call.ToLower#1 ghostset prevLen = contentLength
+//@   at call.ToLower#1 ghostset prevType = contentType
+//@   loop 1 invariant contentLength == "" || contentLength == prevLen || lowerOf(lastName) == "content-length"
+//@   loop 1 invariant contentType == "" || contentType == prevType || lowerOf(lastName) == "content-type"
 
 // Header / LSP: a mismatch caused by an absent Content-Type is forgiven; any
 // other error, and the record, pass through unchanged.
